@@ -15,7 +15,8 @@ RULE = ("profiles: N in 2..60 layers; heights on regular linspace/arange grids o
         "height ranges) on regular grids. Oracles: exactly L layers, non-negative, inputs unchanged, conserved sums and "
         "5/3 moments, own half-open equal-thickness slab membership, optimal grouping validity (contiguous grouping "
         "recovered from cumulative strengths, representative heights, cost <= equal split), GCTM improvement + calibrated "
-        "moment tolerance. Non-trivial = irregular heights or L >= 3. Distinct = canonical JSON.")
+        "moment tolerance. Non-trivial = irregular heights or L >= 3. Distinct = canonical JSON."
+        " Also: L up to N (as many layers as the input); GCTM in km / fraction / 1e-13 units with matching scaling keywords; equivalent_layers a second time under errstate(all='raise') with warnings as errors.")
 ASSUMPTIONS = ["slab i = [hmin + i*step, hmin + (i+1)*step), last slab closed at hmax; a layer within 1e-9*range of an interior edge is not judged for membership (either side accepted)",
                "equal split for optimal grouping = groups of N/L layers (any grouping with sizes floor/ceil(N/L) when L does not divide N: the result must not be worse than all of them)",
                "GCTM: optimiser-accuracy check (objective not worse than at its starting guess; first 2L-1 scaled moments within 5e-2 relative), labelled as such"]
